@@ -158,25 +158,28 @@ theorem processSchema_ok (q : Q) (hf : q.FieldFree) (s s' : Schema) (st st' : St
   | err e => rw [hA] at h; cases h
   | panic e => rw [hA] at h; cases h
 
+theorem stOk_empty (q : Q) : StOk q ({} : St) :=
+  ⟨by intro ko h; simp at h, by intro ko h; simp at h⟩
+
 theorem runFrom_ok (q : Q) (hf : q.FieldFree) : ∀ (S : Schemas) (st : St) (S' : Schemas),
-    (∀ s ∈ S, SchemaTop q s) → StOk q st → runFrom S st = .ok S' → ∀ s' ∈ S', SchemaTop q s'
-  | [], st, S', _, _, h => by simp [runFrom] at h; subst h; simp
-  | s :: rest, st, S', hS, hst, h => by
+    (∀ s ∈ S, SchemaTop q s) → runFrom S st = .ok S' → ∀ s' ∈ S', SchemaTop q s'
+  | [], st, S', _, h => by simp [runFrom] at h; subst h; simp
+  | s :: rest, st, S', hS, h => by
     simp only [runFrom] at h
-    cases hp : processSchema s st with
+    cases hp : processSchema s {} with
     | ok r =>
       obtain ⟨s1, st1⟩ := r
       rw [hp] at h
       simp only at h
-      have h1 := processSchema_ok q hf s s1 st st1 (hS s (by simp)) hst hp
-      cases hr : runFrom rest st1 with
+      have h1 := processSchema_ok q hf s s1 {} st1 (hS s (by simp)) (stOk_empty q) hp
+      cases hr : runFrom rest {} with
       | ok rest' =>
         rw [hr] at h; simp at h; subst h
         intro s' hs'
         simp at hs'
         rcases hs' with hs' | hs'
         · subst hs'; exact h1.1
-        · exact runFrom_ok q hf rest st1 rest' (fun x hx => hS x (List.mem_cons_of_mem _ hx)) h1.2 hr s' hs'
+        · exact runFrom_ok q hf rest {} rest' (fun x hx => hS x (List.mem_cons_of_mem _ hx)) hr s' hs'
       | err e => rw [hr] at h; cases h
       | panic e => rw [hr] at h; cases h
     | err e => rw [hp] at h; cases h
@@ -186,7 +189,7 @@ theorem runFrom_ok (q : Q) (hf : q.FieldFree) : ∀ (S : Schemas) (st : St) (S' 
 theorem keeps_RemoveIntersections (q : Q) (hf : q.FieldFree) (S S' : Schemas) (hS : AllTop q S)
     (h : RemoveIntersections.run S = .ok S') : AllTop q S' := by
   rw [AllTop_iff] at hS ⊢
-  exact runFrom_ok q hf S {} S' hS ⟨by intro ko h; simp at h, by intro ko h; simp at h⟩ h
+  exact runFrom_ok q hf S {} S' hS h
 
 /-- the Shape table extended with RemoveIntersections (Java chain) -/
 def keepsShapeJ (p : PassId) : Bool := keepsShape p || p == .removeIntersections
